@@ -187,10 +187,29 @@ func (m *model) noteVerified(p uint32) {
 	}
 }
 
+// evict. If the eviction finds the piece complete although the model has not seen a cut since it was filled
+// (completion and eviction issued together), the piece was verified at a moment the model did not see; by the next
+// cut it is gone again and check() cannot tell. Waiters registered before that moment may rightly have been woken:
+// they are no longer judged either way.
 func (m *model) evict(p uint32) {
+	m.mu.Lock()
+	var before []*waiter
+	for _, w := range m.waiters {
+		if w.piece == p && !w.expectClosed {
+			before = append(before, w)
+		}
+	}
+	m.mu.Unlock()
 	if !m.complete(p) {
 		return
 	}
+	m.mu.Lock()
+	for _, w := range before {
+		if !w.expectClosed {
+			w.why = "either"
+		}
+	}
+	m.mu.Unlock()
 	// exactly what tor.Expire does for one torrent
 	m.tr.T.Pieces.Expire(0, nil, func(ix uint32) { m.tr.T.Have(ix, false) })
 	m.sw.Act("evict all (p%d was complete)", p)
@@ -572,7 +591,22 @@ func runSeq(t *testing.T, c *vk.C, seq []int, variant int) {
 				m.evict(P)
 			case "evictSilent":
 				// the eviction pass has dropped the piece but its report (Have false) is still on its way
+				m.mu.Lock()
+				var before []*waiter
+				for _, w := range m.waiters {
+					if w.piece == P && !w.expectClosed {
+						before = append(before, w)
+					}
+				}
+				m.mu.Unlock()
 				if m.complete(P) {
+					m.mu.Lock()
+					for _, w := range before {
+						if !w.expectClosed {
+							w.why = "either" // verified at a moment the model may not have seen (see evict)
+						}
+					}
+					m.mu.Unlock()
 					m.tr.T.Pieces.Expire(0, nil, func(ix uint32) { m.pendingReports = append(m.pendingReports, ix) })
 					m.sw.Act("evict (report delayed)")
 					m.stat("evict")
